@@ -10,9 +10,11 @@
     ANSWER = {"ref": {"text", "module"}, "resolves_to": id | null, "err": null | "NameError" | "AttributeError" | "SyntaxError",
               "qualname", "name", "local": b, "bound_at_declared": b,
               "prefix_fix": b      -- the tree before c0135c0 would have named the object differently
-              "mutants": {"pre_fix" | "by_name" | "by_dunder_name": {"ref", "resolves_to", "err"}}}   -- Model/Naming.lean §Mutants
+              "mutants": {"pre_befc63c" | "pre_fix" | "by_name" | "by_dunder_name": {"ref", "resolves_to", "err"}}}   -- Model/Naming.lean §Mutants
   op "naming.text": {"ns": NS, "texts": [[text, module], ...]}
-                    → {"wf": b, "results": [{"ref", "resolves_to", "err", "no_occ": b (noOcc "<module>." text)}, ...]}
+                    → {"wf": b, "results": [{"ref", "resolves_to", "err", "no_occ": b (noOcc "<module>." text),
+                                             "prefixed": b ("<module>." is a prefix of the text),
+                                             "pre_befc63c": {"ref", "resolves_to", "err"}}, ...]}
   Not part of any theorem.
 -/
 import TypelibModel.Drv.Core
@@ -70,7 +72,7 @@ def answer (ns : NS) (o : Obj) : Json :=
     [("qualname", .str (U (qualnameOf o))), ("name", .str (U (nameOf o))), ("local", .bool (isLocal o)),
      ("bound_at_declared", .bool (boundAtDeclared ns o)),
      ("prefix_fix", .bool (decide (forwardrefPreFix o ≠ r))),
-     ("mutants", Json.mkObj [("pre_fix", Json.mkObj (outcome ns (forwardrefPreFix o))),
+     ("mutants", Json.mkObj [("pre_befc63c", Json.mkObj (outcome ns (forwardrefPreBefc63c o))), ("pre_fix", Json.mkObj (outcome ns (forwardrefPreFix o))),
                              ("by_name", Json.mkObj (outcome ns (forwardrefByName o))),
                              ("by_dunder_name", Json.mkObj (outcome ns (forwardrefByDunderName o)))])])
 
@@ -82,7 +84,9 @@ def answerFor (ns : NS) (i : Nat) : Except String Json :=
 def textAnswer (ns : NS) (j : Json) : Except String Json :=
   match j with
   | .arr #[.str t, .str m] =>
-    .ok (Json.mkObj (outcome ns (forwardrefOfText (S t) (S m)) ++ [("no_occ", .bool (noOcc (modulePat (S m)) (S t)))]))
+    .ok (Json.mkObj (outcome ns (forwardrefOfText (S t) (S m)) ++
+      [("no_occ", .bool (noOcc (modulePat (S m)) (S t))), ("prefixed", .bool ((modulePat (S m)).isPrefixOf (S t))),
+       ("pre_befc63c", Json.mkObj (outcome ns (forwardrefOfTextPreBefc63c (S t) (S m))))]))
   | _ => .error s!"naming.text: not a [text, module] pair: {j}"
 
 end NamingDrv
